@@ -4,7 +4,7 @@ manifest is always schema-valid and in step with what the driver implements)."""
 import json, subprocess
 
 HOOK_COMMITS = ["ff49be5"]
-FIX_COMMITS = ["20bf16f", "aefc590", "f10f830", "24ec5ad", "9659f5f"]
+FIX_COMMITS = ["20bf16f", "aefc590", "f10f830", "24ec5ad", "9659f5f", "7e5c136", "f869cf2", "0e309c1"]
 
 NA = {
  "C12": "codec round-trip is a pure function of (input bytes, level); nothing in it depends on scheduling, time, I/O or faults, so a simulator would only be an input generator in disguise (DESIGN.md section 0)",
@@ -38,6 +38,25 @@ CHECKS.update({
    "hit-for-pass histories on the simulated clock for periods {unset, 0s, negative, 1s, 2s, 5s, 300s}: requests surely inside the period must each reach the origin once and never be parked (scheduler observation) - non-queueing is decided with a withholding schedule (origin replies of the key are delivered only when nothing else can move); after the period the single-flight oracle applies again; the default period is bracketed at +299s/+302s.",
    "a request counts as inside / after the period only when that holds for every possible placement of pike's marker timestamp",
    "deterministic simulation: fake clock, withholding schedule, scheduler observation of parked requests"),
+})
+
+CHECKS.update({
+ "C05": ("exploration", "7.5",
+   "seeded sampling of origin encodings x client Accept-Encoding lists x body classes (empty, 1B, around the threshold, large, incompressible, >10x compressible) x content types x statuses x per-run knobs (levels incl. out-of-range, min-length, filter, upstream Accept-Encoding override), delivered on every path the scheduler can create (fetching request, waiter, later hit with another Accept-Encoding, hit after eviction + reload from the simulated store, hit-for-pass, passed methods); decode-and-compare oracle with the harness's own codecs on self-identifying bodies.",
+   "bodies, encodings and knobs are an input space that is sampled; the path dimension (who serves the response) is what the scheduler adds",
+   "deterministic simulation: self-describing origin replies, decode-and-compare on every delivery path"),
+ "C06": ("exploration", "7.6",
+   "confusable key sets forced into one or two shards with per-shard LRU limits of 1-3 under concurrent mixed traffic and expiry; every response must carry the self-identifying origin reply of exactly the requester's (method, Host, request-URI).",
+   "shard choice is made through the verif shard hook (the runtime hash seed is not reproducible); collisions are forced rather than found",
+   "deterministic simulation: forced shard collisions + eviction churn, echo oracle"),
+ "C11": ("exploration", "7.11",
+   "cache sizes 1..40 and {63,64,65,127,128,1000,1023,1024,1025,4096} with populations larger than the size; online invariant after every scheduler step: resident entries <= size; in sequential histories every eviction is compared with a reference LRU list per shard.",
+   "residency and evictions are observed through the verif hooks (lru.Len and the lru's eviction callback); shard membership is asked of the implementation",
+   "deterministic simulation: online residency invariant + reference LRU model"),
+ "C18": ("exploration", "7.18",
+   "two caches / two servers sharing an origin; named, unnamed, absent-key and absent-cache purges placed before, during (origin withheld) and after fetches with expiry, with and without the simulated store; oracles: no hit from an entry installed before a completed purge, untouched keys / caches keep hitting, persisted copy gone, purge never waits for an in-flight fetch, all waiters complete.",
+   "a fetch still in flight when the purge runs may legitimately be installed afterwards (stated exception in C01/C18); unnamed purges run as one atomic scheduler section because sync.Map iteration order is not reproducible",
+   "deterministic simulation: purge x fetch x expiry histories under a seeded scheduler"),
 })
 
 PENDING = {}
